@@ -25,6 +25,7 @@ def funcs : List (String × String) := [
   ("internal/msgpipeline/msgpipeline.go:msgpipelineDelivery.BodyNonAtomic", "9ef190be8c536e0f"),
   ("internal/msgpipeline/msgpipeline.go:msgpipelineDelivery.close", "11e4dc975ce697c4"),
   ("internal/msgpipeline/msgpipeline.go:msgpipelineDelivery.getRcptModifiers", "7e7c4123fc7b79b5"),
+  ("internal/msgpipeline/msgpipeline.go:msgpipelineDelivery.initRunGlobalModifiers", "d90ac0fbbfed6854"),
   ("internal/target/remote/remote.go:remoteDelivery.AddRcpt", "22f624f979db1f13"),
   ("internal/target/remote/remote.go:remoteDelivery.Body", "a554d8cda54e01ca"),
   ("internal/target/remote/remote.go:remoteDelivery.BodyNonAtomic", "74a666db1a05c9ea")
